@@ -440,11 +440,9 @@ def id_scheme(html_mod: ast.Module, root: str) -> typing.Tuple[bool, str]:
 
 def us_link_state(root: str) -> bool:
     """does type_info.j2 refrain from linking a type that is not listed (short name `_`, or the halves of a service named `_`)?
-    Two shapes: the pinned one (always links) and the one of design_notes/C20_us_link_fix.patch."""
+    Only the fixed shape (c1311cb) is accepted."""
     with open(os.path.join(root, 'type_info.j2'), encoding='utf-8') as f:
         ti = re.sub(r'\s+', '', f.read())
-    if 'link_name' not in ti:
-        return False
     want = ('{%ifnested%}{%setlink_name=t.full_namespaceift.has_parent_serviceelset.full_name%}{%iflink_name.split(".")[-1]!="_"%}'
             '<ahref="{{up}}{{t|url_from_type}}">{{t.full_name}}(v{{t.version[0]}}.{{t.version[1]}})</a>{%else%}'
             '{{t.full_name}}(v{{t.version[0]}}.{{t.version[1]}}){%endif%}{{attr_name}}{%else%}')
@@ -454,7 +452,7 @@ def us_link_state(root: str) -> bool:
 
 
 def ns_id_state(root: str) -> bool:
-    """namespace ids: '_'-joined components (pinned) or '-'-joined components + '--ns' (design_notes/C20_ns_id_fix.patch),
+    """namespace ids: '-'-joined components + '--ns' (5a15038; the '_' scheme is no longer accepted),
     consistently in namespace_info.j2, sidebar.j2 and the selector in Namespace.j2"""
     def read(n):
         with open(os.path.join(root, n), encoding='utf-8') as f:
@@ -463,8 +461,6 @@ def ns_id_state(root: str) -> bool:
     old = '{{ t.full_name.replace(".", "_") }}'
     new = '{{ t.full_name.replace(".", "-") }}--ns'
     counts = (ni.count(old), sb.count(old), ni.count(new), sb.count(new))
-    if counts == (4, 5, 0, 0) and 'querySelector("#{{ T.full_name }}")' in nsp:
-        return False
     if counts == (0, 0, 4, 5) and 'querySelector("#{{ T.full_name.replace(".", "-") }}--ns")' in nsp:
         return True
     raise Unsupported('namespace ids are built in an unrecognised / inconsistent way %r' % (counts,))
